@@ -10,7 +10,7 @@ PATCH="$(readlink -f "$1")"; shift
 NAME="$(basename "$(dirname "$PATCH")")-$(basename "$(dirname "$(dirname "$PATCH")")")"
 COPY="$(mktemp -d /tmp/mutrepo.XXXXXX)"
 trap 'rm -rf "$COPY"' EXIT
-rsync -a --exclude .git --exclude 'MUTANT*' /repo/ "$COPY/"
+rsync -a --exclude .git --exclude 'MUTANT*' "${MUT_BASE:-/repo}/" "$COPY/"
 (cd "$COPY" && git init -q . 2>/dev/null && git apply --whitespace=nowarn "$PATCH") || { echo "$NAME: patch does not apply"; exit 2; }
 rm -rf "$COPY/.git"
 (cd "$COPY" && go build ./... && go test -vet=off -count=1 ./... >/dev/null 2>&1) || echo "$NAME: note: goyang's own tests fail with this patch"
